@@ -13,6 +13,7 @@
 -/
 import MitmVerif.Lemmas.C36
 import MitmVerif.Model.C36_Gate
+import MitmVerif.Lemmas.C36_Read
 namespace MitmVerif.Props.C36
 open MitmVerif MitmVerif.C36
 
@@ -294,6 +295,27 @@ theorem gate_pass_current_and_registered (v : Value) (ty : Bytes) (h : gate v = 
         split at h <;> simp at h
   | _ => simp [gate] at h
 
+/-- **C36 (reads may be chunked any way).** `BufferedReader.read(k)` over a raw stream that delivers its content in
+    ANY segments returns the same bytes, and leaves the same unread content, as reading the concatenated content. -/
+theorem read_chunk_independent (segs : List Bytes) (k : Nat) :
+    (readN segs k).1 = (flatRd segs.flatten k).1 ∧ (readN segs k).2.flatten = (flatRd segs.flatten k).2 :=
+  readN_flatten segs k
+
+/-- **C36 (`load` does not depend on how the file delivers its bytes).** `tnetstring.load`, written against the
+    `read` environment exactly as the Python uses it (`read(1)` per prefix byte, `read(n)`, `read(1)`), run on a buffered
+    reader over ANY segmentation of the stream — buffer refills, short raw reads, pipe chunks falling anywhere,
+    also in the middle of a length prefix — returns what `load` returns on the whole content: same value or same
+    error, same unread rest. -/
+theorem load_chunk_independent (m d : Nat) (segs : List Bytes) :
+    (loadVia readN m d (segs.flatten.length + 2) segs).map (fun p => (p.1, p.2.flatten)) = load m d segs.flatten := by
+  rw [loadVia_sim, loadVia_flat]
+
+/-- two deliveries of the same content give the same result -/
+theorem load_same_for_all_segmentations (m d : Nat) (segs segs' : List Bytes) (h : segs.flatten = segs'.flatten) :
+    (loadVia readN m d (segs.flatten.length + 2) segs).map (fun p => (p.1, p.2.flatten))
+      = (loadVia readN m d (segs'.flatten.length + 2) segs').map (fun p => (p.1, p.2.flatten)) := by
+  rw [load_chunk_independent, load_chunk_independent, h]
+
 -- ------------------------------------------------------------------------------------------------
 -- non-vacuity and sanity (computed by the kernel)
 -- ------------------------------------------------------------------------------------------------
@@ -342,5 +364,12 @@ example : gate (.dict []) = .rejectX := by decide +kernel                       
 example : gate (.dict [(.bytes bVersion, .list [.int 3, .int 0]), kv "version" (.int 21)]) = .defer := by decide +kernel  -- b"version" wins
 example : gate (.dict [kv "version" (.bytes [0, 11])]) = .defer := by decide +kernel                    -- tuple(b"\x00\x0b") == (0, 11)
 example : gate (.dict [kv "version" (.list [.list [], .int 1])]) = .rejectX := by decide +kernel        -- unhashable component
+
+-- `peek` is the primitive that is NOT independent of the segmentation: the same content "12:", delivered in one piece
+-- or with the buffer running out after the first digit, peeks differently — a length prefix fetched with one peek()
+-- breaks exactly there, while the read-based load above cannot
+example : peekSeg [[0x31, 0x32, 0x3a]] 13 = [0x31, 0x32, 0x3a] ∧ peekSeg [[0x31], [0x32, 0x3a]] 13 = [0x31] := by decide +kernel
+example : (loadVia readN 100 5 20 [[0x33], [0x3a, 0x61], [0x62, 0x63, 0x2c, 0x78]]).map (fun p => (p.1, p.2.flatten))
+    = .ok (.bytes [0x61, 0x62, 0x63], [0x78]) := by rfl
 
 end MitmVerif.Props.C36
